@@ -41,10 +41,17 @@ func vfCheckBackoff(c *vfBackoffCase) string {
 	for _, r := range c.Retries {
 		var b time.Duration
 		var p interface{}
-		func() {
+		done := make(chan struct{})
+		go func() {
+			defer close(done)
 			defer func() { p = recover() }()
 			b = backoff(time.Duration(c.Base), time.Duration(c.Max), r)
 		}()
+		select {
+		case <-done:
+		case <-time.After(20 * time.Second): // the computation takes nanoseconds, microseconds for the largest counts that matter
+			return fmt.Sprintf("backoff(base=%d,max=%d,retries=%d) has not returned after 20 s of real time", c.Base, c.Max, r)
+		}
 		if p != nil {
 			return fmt.Sprintf("backoff(%d,%d,%d) panicked: %v", c.Base, c.Max, r, p)
 		}
@@ -89,6 +96,9 @@ func vfGenBackoff(rt *rapid.T) *vfBackoffCase {
 	default:
 		base = max/3*2 + rapid.Int64Range(0, vfMin64(max/3, 7)).Draw(rt, "basetwothirds")
 	}
+	if rapid.IntRange(0, 19).Draw(rt, "negbase") == 0 {
+		base = -rapid.Int64Range(0, 1<<40).Draw(rt, "basenegative") // "base <= max" also holds for these
+	}
 	c := &vfBackoffCase{Kind: "backoff", Base: base, Max: max}
 	n := rapid.IntRange(1, 6).Draw(rt, "n")
 	r := 0
@@ -97,9 +107,9 @@ func vfGenBackoff(rt *rapid.T) *vfBackoffCase {
 		if base > 0 && rapid.IntRange(0, 9).Draw(rt, "huge") == 0 {
 			step = rapid.IntRange(1000, 1<<62).Draw(rt, "hugestep")
 		}
-		if base == 0 && rapid.IntRange(0, 2).Draw(rt, "manyzero") == 0 {
-			// base 0: the delay never grows, the count is only bounded by what a loop over it may cost
-			step = rapid.SampledFrom([]int{1000, 1750, 1751, 2000, 50000, 1000000}).Draw(rt, "zerostep")
+		if base <= 0 && rapid.IntRange(0, 2).Draw(rt, "manyzero") == 0 {
+			// base <= 0: the delay never grows; every count must still give an answer at once
+			step = rapid.SampledFrom([]int{1000, 1750, 1751, 2000, 50000, 1000000, 1 << 40, 1<<62 - 1}).Draw(rt, "zerostep")
 		}
 		if r+step < r {
 			break
@@ -195,16 +205,19 @@ func vfCheckT4T7(c *vfT4t7Case) string {
 		return fmt.Sprintf("parseT4T7Latency panicked on %q / %q: %v", c.Headers, c.Trailers, p)
 	}
 	ms, ok := vfRefT4T7(c)
+	if ok && (ms > math.MaxInt64/1000000 || ms < math.MinInt64/1000000) {
+		ok = false // does not fit a Duration: neither "the duration of the entry" nor anything else can be returned
+	}
 	if ok != (err == nil) {
 		return fmt.Sprintf("parseT4T7Latency(headers=%q present=%v, trailers=%q present=%v): err=%v, the reference says ok=%v", c.Headers, c.HasH, c.Trailers, c.HasT, err, ok)
 	}
-	if ok && ms > -math.MaxInt64/1000000 && ms < math.MaxInt64/1000000 && d != time.Duration(ms)*time.Millisecond {
+	if ok && d != time.Duration(ms)*time.Millisecond {
 		return fmt.Sprintf("parseT4T7Latency(headers=%q, trailers=%q) = %v, want %d ms", c.Headers, c.Trailers, d, ms)
 	}
 	return ""
 }
 
-var vfEntryPool = []string{"gfet4t7; dur=12", "gfet4t7; dur=0", "gfet4t7; dur=-3", "gfet4t7; dur=+7", "gfet4t7; dur=", "gfet4t7; dur= 5", "gfet4t7; dur=5 ", "gfet4t7; dur=1.5", "gfet4t7; dur=9223372036854775807",
+var vfEntryPool = []string{"gfet4t7; dur=9223372036854", "gfet4t7; dur=9223372036855", "gfet4t7; dur=-9223372036854", "gfet4t7; dur=-9223372036855", "gfet4t7; dur=18446744073710", "gfet4t7; dur=12", "gfet4t7; dur=0", "gfet4t7; dur=-3", "gfet4t7; dur=+7", "gfet4t7; dur=", "gfet4t7; dur= 5", "gfet4t7; dur=5 ", "gfet4t7; dur=1.5", "gfet4t7; dur=9223372036854775807",
 	"gfet4t7; dur=9223372036854775808", "gfet4t7; dur=99999999999999999999999", "gfet4t7; dur=00000000000000000000000000", "gfet4t7; dur=-0000000000000000000000000007", "gfet4t7; dur=0x10", "gfet4t7; dur=1_000", "gfet4t7;dur=4", "GFET4T7; dur=4", "other; dur=9", "", "gfet4t7", "gfet4t7; dur=٣", "gfet4t7; dur=12, x"}
 
 func vfGenT4T7(rt *rapid.T) *vfT4t7Case {
